@@ -1,5 +1,6 @@
 import EtVerif.Props.C01b
 import EtVerif.Props.C01
+import EtVerif.Props.TrC09
 #print axioms EtVerif.C01.l1_contract
 #print axioms EtVerif.C01.F_contract
 #print axioms EtVerif.C01.fixedpoint_exists_unique
@@ -17,3 +18,18 @@ import EtVerif.Props.C01
 #print axioms EtVerif.C01b.compute_converged_bound
 #print axioms EtVerif.C01b.compute_converged_bound_unique
 #print axioms EtVerif.C01b.fixedpoint_dist
+-- refinement of the translated Go kernels (Gen/Translated.lean, regenerated from /repo) to the model
+#print axioms EtVerif.TrC09.kbn_add
+#print axioms EtVerif.TrC09.kbn_sum
+#print axioms EtVerif.TrC09.vector_sum
+#print axioms EtVerif.TrC09.addVec
+#print axioms EtVerif.TrC09.subVec
+#print axioms EtVerif.TrC09.scaleInPlace
+#print axioms EtVerif.TrC09.scaleVec
+#print axioms EtVerif.TrC09.vecDot_partial
+#print axioms EtVerif.TrC09.vecDot_iff
+#print axioms EtVerif.TrC09.vecDot_field
+#print axioms EtVerif.TrC09.assign
+#print axioms EtVerif.TrC09.clone
+#print axioms EtVerif.TrC09.reset
+#print axioms EtVerif.TrC09.setDim
